@@ -412,7 +412,7 @@ func checkMain(args []string) int {
 		}
 		rf.Confirmed = confirmed
 		_, wasLocked := locked[o.Name]
-		if !wasLocked && (o.Safety || o.Kind == "overflow" || o.Kind == "fconv" || o.Kind == "shift" || strings.HasSuffix(o.Kind, "/complete")) {
+		if !wasLocked && (o.Safety || o.Kind == "overflow" || o.Kind == "fconv" || o.Kind == "shift" || strings.HasSuffix(o.Kind, "/complete") || strings.HasPrefix(o.Kind, "pre:")) {
 			// per-instruction obligations (bounds, nil, division, explicit
 			// panic, overflow sweep) shift with every edit: they are locked
 			// as a class for every function that has locked obligations
@@ -421,6 +421,12 @@ func checkMain(args []string) int {
 					wasLocked = true
 					break
 				}
+			}
+			// a function under contract whose obligations were all
+			// discharged syntactically on the reference tree has no
+			// named entry; the signature table knows it
+			if !wasLocked && len(locked) > 0 && v.lockSigs[o.Func] != nil {
+				wasLocked = true
 			}
 		}
 		os.MkdirAll(replayDir, 0o755)
